@@ -2,10 +2,17 @@
 // An `Expr` is represented only by what it denotes on a row: a real number (booleans as 0/1). Each `Expr::<ctor>`
 // stub carries one assumed equation ("Expr::divide(a,b) denotes [[a]]/[[b]]"); that the SQL engine evaluates the
 // rendered expression the same way is part of the trusted base shared by C01/C03/C04/C05/C09.
-#[derive(PartialEq, Eq)]
 pub struct Str { pub id: u64 }
+// String equality is equality of the opaque name
+impl vstd::std_specs::cmp::PartialEqSpecImpl for Str {
+    open spec fn obeys_eq_spec() -> bool { true }
+    open spec fn eq_spec(&self, other: &Str) -> bool { *self == *other }
+}
+impl PartialEq for Str { fn eq(&self, other: &Str) -> (r: bool) { self.id == other.id } }
+impl Eq for Str {}
 impl Str {
     pub fn as_str(&self) -> (r: &Str) ensures r == self { self }
+    pub fn to_string(&self) -> (r: Str) ensures r == *self { Str { id: self.id } }
 }
 impl Clone for Str { fn clone(&self) -> (r: Self) ensures r == *self { Str { id: self.id } } }
 pub type Row = spec_fn(Str) -> real;
@@ -19,10 +26,13 @@ impl QxVal for f64 { open spec fn rv(self) -> real { f64r(self) } }
 impl QxVal for i32 { open spec fn rv(self) -> real { self as real } }
 impl QxVal for i64 { open spec fn rv(self) -> real { self as real } }
 pub uninterp spec fn null_flag(e: Expr, row: Row) -> bool;
+/// denotations of a column reference and of a constant (the same facts as the pointwise clauses of col / val, as function values)
+pub open spec fn col_den(n: Str) -> spec_fn(Row) -> real { |row: Row| row(n) }
+pub open spec fn const_den(v: real) -> spec_fn(Row) -> real { |row: Row| v }
 impl Expr {
     pub open spec fn at(self, row: Row) -> real { (self.den@)(row) }
-    #[verifier::external_body] pub fn col<N: QxName>(n: N) -> (r: Expr) ensures forall|row: Row| #[trigger] r.at(row) == row(n.nm()), forall|row: Row| #[trigger] null_flag(r, row) == null_in(row, n.nm()) { unimplemented!() }
-    #[verifier::external_body] pub fn val<V: QxVal>(v: V) -> (r: Expr) ensures forall|row: Row| #[trigger] r.at(row) == v.rv() { unimplemented!() }
+    #[verifier::external_body] pub fn col<N: QxName>(n: N) -> (r: Expr) ensures forall|row: Row| #[trigger] r.at(row) == row(n.nm()), forall|row: Row| #[trigger] null_flag(r, row) == null_in(row, n.nm()), r.den@ == col_den(n.nm()) { unimplemented!() }
+    #[verifier::external_body] pub fn val<V: QxVal>(v: V) -> (r: Expr) ensures forall|row: Row| #[trigger] r.at(row) == v.rv(), r.den@ == const_den(v.rv()) { unimplemented!() }
     // Expr::divide guards the denominator: case(b >= EPSILON or b <= -EPSILON, a / b, 0)   (expr/mod.rs)
     #[verifier::external_body] pub fn divide(a: Expr, b: Expr) -> (r: Expr)
         ensures forall|row: Row| #[trigger] r.at(row) == (if b.at(row) >= r_epsilon() || b.at(row) <= -r_epsilon() { a.at(row) / b.at(row) } else { 0real }) { unimplemented!() }
